@@ -9,7 +9,9 @@ use midnight_proofs::utils::{
     rational::Rational,
 };
 use serde_json::json;
-use vcore::{catch, rng_for, CaseOut, Ctx, Viol};
+use vcore::{rng_for, CaseOut, Ctx, Viol};
+
+use crate::util::pcatch as catch;
 
 use crate::util::{eval_by_powers, fhex, fhexs, horner, len_class, omega_for, powers_of, seeded_vec, GPool, MIXED_POOL_WORKERS, POOLS_ALL};
 
